@@ -201,15 +201,13 @@ def r62(ctx):
     R.named_scenario_refused(ctx, "R6.2", vb, ["incoming_msat + max_to_invoice_msat < outgoing_msat"], f"{vb.name}/overpay",
                              "a payment whose outgoing exceeds incoming plus the invoiced allowance is accepted")
     vv = fnview(ctx, vb).named()
-    defs = []
+    # every alternative the allowance can take (an `if let` in place, or the result of a helper)
+    defs = R.all_defs(vv, "max_to_invoice_msat")
     for l in range(len(vb.local_tys)):
         if vb.local_name(l) == "max_to_invoice_msat":
             for (bi, idx, obj) in vv.defs.get(l, []):
-                if idx != "T" and obj.kind == "a":
-                    if obj.rv.op == "use":
-                        defs.append(render(vv.expr(obj.rv.ops[0])))
-                    elif obj.rv.op == "bin":
-                        defs.append(f"({render(vv.expr(obj.rv.ops[0]))} {obj.rv.a} {render(vv.expr(obj.rv.ops[1]))})")
+                if idx != "T" and obj.kind == "a" and obj.rv.op == "bin":
+                    defs.append(f"({render(vv.expr(obj.rv.ops[0]))} {obj.rv.a} {render(vv.expr(obj.rv.ops[1]))})")
     okd = any(d == "0" for d in defs) and any("max_routing_fee_msat" in d and "+" in d or "Add" in d for d in defs) and len(defs) <= 3
     ctx.ob("R6.2", okd, f"{vb.name}/allowance", f"max_to_invoice_msat definitions: {defs}", where=f"{vb.file}:{vb.line}", sample=defs)
 
